@@ -15,7 +15,7 @@ if __name__ == "__main__":  # fresh-process oracle entry (python props/C20.py --
     sys.dont_write_bytecode = True
     sys.path.insert(0, os.path.dirname(os.path.dirname(os.path.abspath(__file__))))
 
-from vlib import clock, guards, graphs as G, gens, oracles
+from vlib import alias, clock, guards, graphs as G, gens, oracles
 from vlib.base import import_dsw, VERIF, REPO, jdump, derive_seed
 from vlib.proxies import frozen
 
@@ -221,6 +221,16 @@ def _(dsw, S, p, v):
     return dsw.obtain_vertices(S.acc)
 
 
+@op("obtain_formers")
+def _(dsw, S, p, v):
+    return dsw.obtain_formers(p["v"], S.k)
+
+
+@op("obtain_latters")
+def _(dsw, S, p, v):
+    return dsw.obtain_latters(p["v"], S.k)
+
+
 @op("obtain_leaf_vertices")
 def _(dsw, S, p, v):
     if p["via"] == "accessor":
@@ -265,7 +275,7 @@ def run_op(dsw, S, name, p, verbose=False):
     """Returns canonical result or {'exc': type}."""
     fn = OPS[name][0]
     try:
-        with contextlib.redirect_stdout(io.StringIO()), clock.budget(STEP_BUDGET):
+        with contextlib.redirect_stdout(io.StringIO()), clock.budget(STEP_BUDGET if S.k <= 3 else STEP_BUDGET * 200):
             raw = fn(dsw, S, p, verbose)
             S.last_raw = raw
             return canon(raw)
@@ -318,8 +328,8 @@ def setup(ctx):
     guards.audit_install()
 
 
-def _initial(rng):
-    k = rng.choice([2, 2, 3])
+def _initial(rng, large=False):
+    k = rng.choice([2, 2, 3]) if not large else 6
     acc = None
     while acc is None:
         acc = gens.arc_graph(rng, k, density=rng.choice([0.6, 0.8, 0.95]), forbid3=rng.random() < 0.4)
@@ -334,13 +344,16 @@ def _initial(rng):
                 lm=lm, cfg=cfg, strand=strand, check=oracles.vt(strand, 4))
 
 
+LARGE_OPS = {"obtain_formers", "obtain_latters", "approximate_capacity", "connect_valid_graph", "find_vertices", "get_complete_accessor", "obtain_vertices",
+             "accessor_to_latter_map", "latter_map_to_accessor", "create_random_shuffles", "encode", "decode", "set_vt",
+             "obtain_leaf_vertices", "filter_valid", "connect_coding_graph"}
 WEIGHTS = [("encode", 6), ("decode", 5), ("repair_dna", 4), ("set_vt", 2), ("bit_to_number", 2), ("number_to_bit", 1),
            ("dna_to_number", 1), ("number_to_dna", 1), ("calculus", 2), ("find_vertices", 2), ("connect_valid_graph", 2),
            ("connect_coding_graph", 3), ("approximate_capacity", 3), ("calculate_intersection_score", 2),
            ("create_random_shuffles", 2), ("accessor_to_latter_map", 2), ("latter_map_to_accessor", 2),
            ("accessor_to_adjacency_matrix", 1), ("adjacency_matrix_to_accessor", 1), ("obtain_vertices", 1),
-           ("obtain_leaf_vertices", 2), ("get_complete_accessor", 3), ("path_matching", 2), ("remove_useless", 2),
-           ("filter_valid", 2), ("remove_nasty_arc", 4)]
+           ("obtain_leaf_vertices", 4), ("obtain_formers", 1), ("obtain_latters", 1), ("get_complete_accessor", 3), ("path_matching", 2), ("remove_useless", 2),
+           ("filter_valid", 2), ("remove_nasty_arc", 8)]
 
 
 def _params(rng, name, S):
@@ -371,7 +384,7 @@ def _params(rng, name, S):
     if name == "connect_coding_graph":
         return dict(t=rng.choice([1, 1, 2, 3]))
     if name == "approximate_capacity":
-        return dict(seed=rng.getrandbits(32), repeats=rng.choice([1, 2, 3]), process=rng.random() < 0.3)
+        return dict(seed=rng.getrandbits(32), repeats=rng.choice([1, 1, 2, 3]), process=rng.random() < 0.5)
     if name == "calculate_intersection_score":
         return dict(ins=rng.random() < 0.5, dele=rng.random() < 0.5)
     if name == "create_random_shuffles":
@@ -379,7 +392,10 @@ def _params(rng, name, S):
     if name == "latter_map_to_accessor":
         return dict(t=rng.choice([None, None, 1, 2]))
     if name == "obtain_leaf_vertices":
-        return dict(v=rng.randrange(4 ** k), depth=rng.randint(0, k + 1), via=rng.choice(["accessor", "latter_map"]))
+        # few keys: the same (vertex, depth) queries recur before and after in-place edits of the shared graph
+        return dict(v=rng.choice([S.start, S.start, (S.start * 4 + 1) % 4 ** k, 0]), depth=rng.choice([1, 2, 2, k]), via=rng.choice(["accessor", "latter_map", "latter_map"]))
+    if name in ("obtain_formers", "obtain_latters"):
+        return dict(v=rng.choice([S.start, 0, 4 ** k - 1, rng.randrange(4 ** k)]))
     if name == "path_matching":
         s = S.strand if len(S.strand) >= 2 else "ACGT"
         return dict(s=s, prev=S.start, loc=rng.randrange(min(len(s), k + 1)), indel=rng.random() < 0.5)
@@ -396,33 +412,61 @@ def _params(rng, name, S):
 
 def generate(ctx):
     rng = ctx.rng
-    for _ in range(ctx.pick(22, 250)):
+    for i in range(ctx.pick(20, 250)):
         yield "history", dict(seed=rng.getrandbits(48), length=rng.randint(20, 60), fresh_each=(not ctx.quick()) and rng.random() < 0.15)
+        if i % ctx.pick(10, 5) == 0:
+            # order 6 (4096 vertices): the cheap operations only; state shared across calls on *different* graphs of one size
+            yield "history", dict(seed=rng.getrandbits(48), length=rng.randint(12, 24), large=True)
 
 
 def check_history(ctx, case):
     dsw = import_dsw()
     rng = random.Random(case["seed"])
-    S = State(_initial(rng))
+    S = State(_initial(rng, bool(case.get("large"))))
     names = [n for n, w in WEIGHTS for _ in range(w)]
     recs, live_results, seen_ops = [], [], set()
     where0 = "history seed=%d" % case["seed"]
+    burst = 0
+    large = bool(case.get("large"))
+    if large:
+        names = [n for n in names if n in LARGE_OPS]
     for step in range(case["length"]):
-        name = rng.choice(names)
+        if rng.random() < 0.12:
+            # harness-side edits *in place* (same objects): what a caller does between library calls
+            kind = rng.choice(["edit_accessor", "edit_accessor", "refill_mask", "edit_table"])
+            n_v = 4 ** S.k
+            if kind == "edit_accessor":
+                for _e in range(rng.randint(1, 3)):
+                    v, j = rng.randrange(n_v), rng.randrange(4)
+                    w = (v * 4 + j) % n_v
+                    if S.acc[v, j] >= 0:
+                        S.acc[v, j] = -1
+                        if v in S.lm and w in S.lm[v]:
+                            S.lm[v].remove(w)
+                            if not S.lm[v]:
+                                del S.lm[v]
+                    else:
+                        S.acc[v, j] = w
+                        S.lm.setdefault(v, []).append(w)
+            elif kind == "refill_mask":
+                S.mask[...] = np.array(gens.rand_mask(rng, S.k, rng.choice([0.5, 0.8, 1.0])), dtype=bool)
+            else:
+                r = rng.randrange(len(S.table))
+                row = S.table[r].tolist()
+                rng.shuffle(row)
+                S.table[r] = row
+            ctx.cls("shared objects edited in place by the harness")
+        if burst > 0:
+            burst -= 1
+            name = "remove_nasty_arc"
+        else:
+            name = rng.choice(names)
+            if name == "remove_nasty_arc":
+                burst = rng.randint(0, 6)      # removal runs: the interesting states are several removals deep
         p = _params(rng, name, S)
         fn, has_verbose, randomised, in_place = OPS[name]
         snap = S.snap()
         where = "%s, call %d: %s(%s)" % (where0, step, name, jdump(p)[:120])
-        # twin runs on rebuilt copies first (they never touch the shared objects): write-protected and verbose
-        Sc = State(snap)
-        for arr in (Sc.acc, Sc.msg, Sc.table, Sc.mask):
-            arr.flags.writeable = False
-        r_frozen = None
-        if not in_place:
-            r_frozen = run_op(dsw, Sc, name, p)
-            if isinstance(r_frozen, dict) and "read-only" in r_frozen.get("msg", ""):
-                ctx.fail("argument-written-in-place:" + name, "an ndarray argument was written in place: %s; %s" % (r_frozen, where))
-        r_verbose = run_op(dsw, State(snap), name, p, verbose=True) if has_verbose else None
         # the live call on the shared objects, fully guarded
         objs = S.objects()
         before = {k: guards.digest(v) for k, v in objs.items()}
@@ -442,16 +486,16 @@ def check_history(ctx, case):
         effects = [e for e in ev.events if e[0] != "open"]
         if effects:
             ctx.fail("side-effect:" + name, "audit events %s; %s" % (effects[:3], where))
-        if r_frozen is not None and not (isinstance(r_frozen, dict) and "read-only" in r_frozen.get("msg", "")) and _differs(r_frozen, r_live):
-            ctx.fail("repeated-call-differs:" + name, "the same call on equal (write-protected) arguments gave %s, on the shared objects %s; %s" % (
-                jdump(r_frozen)[:160], jdump(r_live)[:160], where))
-        if r_verbose is not None:
-            if in_place:
-                pass  # compared against the live result below
-            if _differs(r_verbose, r_live):
-                ctx.fail("verbose-changes-result:" + name, "verbose=True gave %s, verbose=False %s; %s" % (
-                    jdump(r_verbose)[:160], jdump(r_live)[:160], where))
-            ctx.cls("verbose twin|" + name)
+        # G1: scramble what the library handed back, repeat the identical call on the same objects
+        raw = getattr(S, "last_raw", None)
+        if not in_place and not (isinstance(r_live, dict) and "exc" in r_live) and alias.has_mutable(raw) \
+                and not alias.aliases_arguments(raw, tuple(S.objects().values()), {}) and not (name in ADOPT and p.get("adopt")):
+            alias.scramble(raw)
+            r_again = run_op(dsw, S, name, p)
+            ctx.cls("call repeated after its result was scrambled")
+            if _differs(r_again, r_live):
+                ctx.fail("answer-changes-after-result-was-edited:" + name, "the identical call, repeated after the caller edited the first result in place, "
+                         "returned %s instead of %s; %s" % (jdump(r_again)[:160], jdump(r_live)[:160], where))
         recs.append(dict(op=name, p=p, snap=snap))
         live_results.append(r_live)
         seen_ops.add(name)
@@ -481,6 +525,29 @@ def check_history(ctx, case):
                 elif ADOPT[name] == "mask" and raw.shape == S.mask.shape:
                     S.mask = raw
                     ctx.cls("adopted a returned mask as the shared mask")
+    # twins, as a pass of their own *after* the history (so that no call on other objects sits between two live calls on
+    # the shared objects): every recorded call again on write-protected copies of its arguments, and with verbose=True
+    for i, rec in enumerate(recs):
+        name, p = rec["op"], rec["p"]
+        fn, has_verbose, randomised, in_place = OPS[name]
+        where = "%s, call %d: %s(%s)" % (where0, i, name, jdump(p)[:120])
+        r_live = live_results[i]
+        if not in_place:
+            Sc = State(rec["snap"])
+            for arr in (Sc.acc, Sc.msg, Sc.table, Sc.mask):
+                arr.flags.writeable = False
+            r_frozen = run_op(dsw, Sc, name, p)
+            if isinstance(r_frozen, dict) and "read-only" in r_frozen.get("msg", ""):
+                ctx.fail("argument-written-in-place:" + name, "an ndarray argument was written in place: %s; %s" % (r_frozen, where))
+            elif _differs(r_frozen, r_live):
+                ctx.fail("repeated-call-differs:" + name, "the same call on equal (write-protected) arguments gave %s, on the shared objects %s; %s" % (
+                    jdump(r_frozen)[:160], jdump(r_live)[:160], where))
+        if has_verbose:
+            r_verbose = run_op(dsw, State(rec["snap"]), name, p, verbose=True)
+            if _differs(r_verbose, r_live, twin=True):
+                ctx.fail("verbose-changes-result:" + name, "verbose=True gave %s, verbose=False %s; %s" % (
+                    jdump(r_verbose)[:160], jdump(r_live)[:160], where))
+            ctx.cls("verbose twin|" + name)
     # fresh-interpreter oracle: the recorded calls, reversed order, one fresh process
     order = list(range(len(recs)))[::-1]
     fresh, err = fresh_run([recs[i] for i in order])
@@ -502,10 +569,16 @@ def check_history(ctx, case):
                 if _differs(one[0], live_results[i]):
                     ctx.fail("differs-from-fresh-process:" + recs[i]["op"], "call %d %s differs from a fresh interpreter running only that call; %s" % (i, recs[i]["op"], where0))
     ctx.obs("longest_history", len(recs))
+    if large:
+        ctx.cls("histories at order 6")
     ctx.done("history", case, len(seen_ops) >= 3)
 
 
-def _differs(a, b):
+def _differs(a, b, twin=False):
+    if twin and any(isinstance(x, dict) and x.get("exc") == "NoReturnWithinLoopBudget" for x in (a, b)) and jdump(a) != jdump(b):
+        # a run cut by the logical clock is comparable only with a run that executes the same loop iterations (the fresh
+        # interpreter); progress output adds iterations, so twins near the budget are not judged
+        return False
     ea, eb = isinstance(a, dict) and "exc" in a, isinstance(b, dict) and "exc" in b
     if ea or eb:
         return not (ea and eb and a["exc"] == b["exc"])
@@ -525,6 +598,10 @@ def floors(agg, tier):
         out.append("fresh-interpreter replays: %d < 100" % m.get("fresh-interpreter replays", 0))
     if c.get("in-place removal followed by further calls", 0) < 100:
         out.append("in-place removals: %d < 100" % c.get("in-place removal followed by further calls", 0))
+    for name, need in (("call repeated after its result was scrambled", 2000), ("shared objects edited in place by the harness", 300),
+                       ("histories at order 6", 10)):
+        if c.get(name, 0) < need:
+            out.append("%s observed %d < %d" % (name, c.get(name, 0), need))
     if c.get("adopted a returned accessor as the shared accessor", 0) < 30:
         out.append("adopted accessors: %d < 30" % c.get("adopted a returned accessor as the shared accessor", 0))
     if c.get("outcome|exception", 0) < 50:
